@@ -89,7 +89,7 @@ def _outputs(sc, perm):
 
 def seeds_differ(sc, n=24):
     """the same scenario in sub-processes of the real interpreter with different hash seeds"""
-    env = dict(os.environ, PYTHONPATH='/repo:/verif', PYTHONDONTWRITEBYTECODE='1')
+    env = dict(os.environ, PYTHONPATH=os.environ.get('VERIF_REPO', '/repo') + ':/verif', PYTHONDONTWRITEBYTECODE='1')
     digests = set()
     for seed in range(n):
         env['PYTHONHASHSEED'] = str(seed)
